@@ -104,7 +104,7 @@ def check_one(ref, av, sc, chi2, what, float32):
 
 def run_case(case, ctx):
     from astropy import units as u
-    labels = {'format_' + case['format'], 'shape_' + case['setup']['shape']}
+    labels = {'format_' + case['format'], 'shape_' + case['setup']['shape'], 'apertures_stored_' + case.get('ap_storage', 'asc')}
     float32 = bool(case.get('memmap'))
     grid = case['grid']
     names = grid['names']
